@@ -1,0 +1,23 @@
+//go:build verif
+
+package service
+
+import (
+	"github.com/icon-project/goloop/module"
+	"github.com/icon-project/goloop/service/state"
+)
+
+// VerifC16WorldSnapshot returns the in-memory world snapshot of an executed transition.
+func VerifC16WorldSnapshot(tr module.Transition) state.WorldSnapshot {
+	return tr.(*transition).worldSnapshot
+}
+
+// VerifC16ResultWithState returns the transition result bytes with the state hash replaced.
+func VerifC16ResultWithState(result []byte, stateHash []byte) ([]byte, error) {
+	tr, err := newTransitionResultFromBytes(result)
+	if err != nil {
+		return nil, err
+	}
+	tr.StateHash = stateHash
+	return tr.Bytes(), nil
+}
